@@ -300,5 +300,49 @@ func main() {
 		}
 	}
 	ex.DefStrList("constMakes", consts)
+	// decoders of on-disk rows that take the row as a byte slice: every place where the slice
+	// parameter is indexed or sliced directly (instead of being read through a bytes.Reader, which
+	// answers a short row with an error)
+	fmt.Println("def rawIndexing : List (String × List String) := [")
+	rows := [][2]string{{"blockchain", "DeserializeBlockRow"}}
+	for i, rw := range rows {
+		bp := wiretok.Load(rw[0])
+		fd, ok := bp.Funcs[rw[1]]
+		if !ok {
+			ex.Die("%s.%s not found", rw[0], rw[1])
+		}
+		bf := bp.FileOf[rw[1]]
+		params := map[string]bool{}
+		for _, fl := range fd.Type.Params.List {
+			if at, ok := fl.Type.(*ast.ArrayType); ok && at.Len == nil && bf.Src(at.Elt) == "byte" {
+				for _, n := range fl.Names {
+					params[n.Name] = true
+				}
+			}
+		}
+		if len(params) == 0 {
+			ex.Die("%s.%s has no []byte parameter", rw[0], rw[1])
+		}
+		var hits []string
+		ast.Inspect(fd.Body, func(n ast.Node) bool {
+			switch x := n.(type) {
+			case *ast.IndexExpr:
+				if id, ok := x.X.(*ast.Ident); ok && params[id.Name] {
+					hits = append(hits, bf.Src(x))
+				}
+			case *ast.SliceExpr:
+				if id, ok := x.X.(*ast.Ident); ok && params[id.Name] {
+					hits = append(hits, bf.Src(x))
+				}
+			}
+			return true
+		})
+		sep := ","
+		if i == len(rows)-1 {
+			sep = ""
+		}
+		fmt.Printf("  (%s, %s)%s\n", ex.LeanStr(rw[0]+"."+rw[1]), ex.StrList(hits), sep)
+	}
+	fmt.Println("]")
 	ex.Footer("C02")
 }
